@@ -123,9 +123,9 @@ theorem c01_partial : C01_for tr := by
 def AgreeBag (km : KindMap) (g : Graph) (t : Table) (r : List String × List (List Cy.CVal)) : Prop := (sqlRows t).Perm (cyRows g km r)
 
 /-- `tr2F` answers only inside S1 ∪ S2: with the S1 statement, or with the hop statement in the join order `flipOf` picked -/
-theorem tr2_some (flipOf : S2.Query → Bool) (km : KindMap) (q : Cy.Query) (st : Stmt) (ps : List (String × Val))
-    (h : tr2F flipOf km q = some (st, ps)) :
-    tr km q = some (st, ps) ∨ (∃ s : S2.Query, ofCy2 q = some s ∧ s.toCy = q ∧ s.trWith km (flipOf s) = some st ∧ ps = []) := by
+theorem tr2_some (flipOf : S2.Query → Bool) (prune : Bool) (km : KindMap) (q : Cy.Query) (st : Stmt) (ps : List (String × Val))
+    (h : tr2F flipOf prune km q = some (st, ps)) :
+    tr km q = some (st, ps) ∨ (∃ s : S2.Query, ofCy2 q = some s ∧ s.toCy = q ∧ s.trWith km (flipOf s) prune = some st ∧ ps = []) := by
   unfold tr2F at h
   cases h1 : tr km q with
   | some r => rw [h1] at h; cases h; exact Or.inl rfl
@@ -143,14 +143,14 @@ theorem tr2_some (flipOf : S2.Query → Bool) (km : KindMap) (q : Cy.Query) (st 
 /-- `tr_sound_S2`: for every graph satisfying `GraphOK2` (GraphOK + unique relationship ids + known relationship kinds + no relationship
 property stored as JSON null), every join-order choice and every query on which the model translator answers (stage S1 or S2): whenever
 the emitted statement evaluates, the reference semantics yields a result and the SQL rows are a permutation of its rows (equal lists for S1) -/
-theorem tr_sound_S2 (flipOf : S2.Query → Bool) (km : KindMap) (g : Graph) (q : Cy.Query) (st : Stmt) (ps : List (String × Val))
-    (hok : GraphOK2 km g) (h : tr2F flipOf km q = some (st, ps)) (t : Table) (ht : Sql.eval (encode km g) st ps = .ok t) :
+theorem tr_sound_S2 (flipOf : S2.Query → Bool) (prune : Bool) (km : KindMap) (g : Graph) (q : Cy.Query) (st : Stmt) (ps : List (String × Val))
+    (hok : GraphOK2 km g) (h : tr2F flipOf prune km q = some (st, ps)) (t : Table) (ht : Sql.eval (encode km g) st ps = .ok t) :
     ∃ r, Cy.eval .none g q = .ok r ∧ AgreeBag km g t r := by
-  rcases tr2_some flipOf km q st ps h with h1 | ⟨s, _, hq, hst, hps⟩
+  rcases tr2_some flipOf prune km q st ps h with h1 | ⟨s, _, hq, hst, hps⟩
   · obtain ⟨r, hr, hag⟩ := tr_sound_S1 km g q st ps hok.toGraphOK h1 t ht
     exact ⟨r, hr, by unfold AgreeBag; rw [show sqlRows t = cyRows g km r from hag]⟩
   · subst hps hq
-    obtain ⟨r, names, rows, hr, hsql, hperm⟩ := s2_sound km g hok s (flipOf s) st hst
+    obtain ⟨r, names, rows, hr, hsql, hperm⟩ := s2_sound km g hok s (flipOf s) prune st hst
     rcases hsql with hsql | ⟨w, hsql⟩
     · rw [hsql] at ht; cases ht
       exact ⟨r, hr, hperm⟩
@@ -158,32 +158,32 @@ theorem tr_sound_S2 (flipOf : S2.Query → Bool) (km : KindMap) (g : Graph) (q :
 
 /-- `tr_sound_S2b` (the same, said for the hop stage alone and for BOTH join orders at once): the two statements the translator can emit for
 a hop query — a-node joined first / b-node joined first — are each a permutation of the Cypher result whenever they evaluate -/
-theorem tr_sound_S2b (km : KindMap) (g : Graph) (hok : GraphOK2 km g) (s : S2.Query) (flip : Bool) (st : Stmt)
-    (h : s.trWith km flip = some st) (t : Table) (ht : Sql.eval (encode km g) st [] = .ok t) :
+theorem tr_sound_S2b (km : KindMap) (g : Graph) (hok : GraphOK2 km g) (s : S2.Query) (flip prune : Bool) (st : Stmt)
+    (h : s.trWith km flip prune = some st) (t : Table) (ht : Sql.eval (encode km g) st [] = .ok t) :
     ∃ r, Cy.eval .none g s.toCy = .ok r ∧ AgreeBag km g t r := by
-  obtain ⟨r, names, rows, hr, hsql, hperm⟩ := s2_sound km g hok s flip st h
+  obtain ⟨r, names, rows, hr, hsql, hperm⟩ := s2_sound km g hok s flip prune st h
   rcases hsql with hsql | ⟨w, hsql⟩
   · rw [hsql] at ht; cases ht; exact ⟨r, hr, hperm⟩
   · rw [hsql] at ht; cases ht
 
 /-- the reference semantics is defined on every query of the stage (no hypothesis on the SQL side) -/
-theorem tr2_cypher_defined (flipOf : S2.Query → Bool) (km : KindMap) (g : Graph) (q : Cy.Query) (st : Stmt) (ps : List (String × Val))
-    (hok : GraphOK2 km g) (h : tr2F flipOf km q = some (st, ps)) : ∃ r, Cy.eval .none g q = .ok r := by
-  rcases tr2_some flipOf km q st ps h with h1 | ⟨s, _, hq, hst, hps⟩
+theorem tr2_cypher_defined (flipOf : S2.Query → Bool) (prune : Bool) (km : KindMap) (g : Graph) (q : Cy.Query) (st : Stmt) (ps : List (String × Val))
+    (hok : GraphOK2 km g) (h : tr2F flipOf prune km q = some (st, ps)) : ∃ r, Cy.eval .none g q = .ok r := by
+  rcases tr2_some flipOf prune km q st ps h with h1 | ⟨s, _, hq, hst, hps⟩
   · exact tr_cypher_defined km g q st ps hok.toGraphOK h1
   · subst hq
-    obtain ⟨r, _, _, hr, _, _⟩ := s2_sound km g hok s (flipOf s) st hst
+    obtain ⟨r, _, _, hr, _, _⟩ := s2_sound km g hok s (flipOf s) prune st hst
     exact ⟨r, hr⟩
 
 /-- the emitted statement never ends in an SQL run-time / type / name error (only the model's own `unmodelled` for `->>` of array/object
 properties under a string comparison) -/
-theorem tr2_no_runtime_error (flipOf : S2.Query → Bool) (km : KindMap) (g : Graph) (q : Cy.Query) (st : Stmt) (ps : List (String × Val))
-    (hok : GraphOK2 km g) (h : tr2F flipOf km q = some (st, ps)) (e : EErr) (he : Sql.eval (encode km g) st ps = .error e) :
+theorem tr2_no_runtime_error (flipOf : S2.Query → Bool) (prune : Bool) (km : KindMap) (g : Graph) (q : Cy.Query) (st : Stmt) (ps : List (String × Val))
+    (hok : GraphOK2 km g) (h : tr2F flipOf prune km q = some (st, ps)) (e : EErr) (he : Sql.eval (encode km g) st ps = .error e) :
     ∃ w, e = .unmodelled w := by
-  rcases tr2_some flipOf km q st ps h with h1 | ⟨s, _, hq, hst, hps⟩
+  rcases tr2_some flipOf prune km q st ps h with h1 | ⟨s, _, hq, hst, hps⟩
   · exact tr_no_runtime_error km g q st ps hok.toGraphOK h1 e he
   · subst hps hq
-    obtain ⟨r, names, rows, _, hsql, _⟩ := s2_sound km g hok s (flipOf s) st hst
+    obtain ⟨r, names, rows, _, hsql, _⟩ := s2_sound km g hok s (flipOf s) prune st hst
     rcases hsql with hsql | ⟨w, hsql⟩
     · rw [hsql] at he; cases he
     · rw [hsql] at he; cases he; exact ⟨w, rfl⟩
@@ -195,21 +195,21 @@ def C01_bag_for (T : KindMap → Cy.Query → Option (Stmt × List (String × Va
     (∀ m, Sql.eval (encode km g) st ps ≠ .error (.runtime m))
 
 /-- … holds for the model translator under EVERY join-order choice -/
-theorem c01_partial_S2 (flipOf : S2.Query → Bool) : C01_bag_for (tr2F flipOf) := by
+theorem c01_partial_S2 (flipOf : S2.Query → Bool) (prune : Bool) : C01_bag_for (tr2F flipOf prune) := by
   intro km g q st ps hok h
-  refine ⟨fun t ht => tr_sound_S2 flipOf km g q st ps hok h t ht, ?_⟩
+  refine ⟨fun t ht => tr_sound_S2 flipOf prune km g q st ps hok h t ht, ?_⟩
   intro m hm
-  obtain ⟨w, hw⟩ := tr2_no_runtime_error flipOf km g q st ps hok h _ hm
+  obtain ⟨w, hw⟩ := tr2_no_runtime_error flipOf prune km g q st ps hok h _ hm
   cases hw
 
 /-! ### stage S2c: chains of two or three directed fixed hops — `tr3F flipOf flipCh` = S1 ∪ S2b ∪ S2c -/
 
 /-- `tr3F` answers only inside S1 ∪ S2b ∪ S2c -/
-theorem tr3_some (flipOf : S2.Query → Bool) (flipCh : Ch.Query → Bool) (km : KindMap) (q : Cy.Query) (st : Stmt) (ps : List (String × Val))
-    (h : tr3F flipOf flipCh km q = some (st, ps)) :
-    tr2F flipOf km q = some (st, ps) ∨ (∃ s : Ch.Query, ofCyChain q = some s ∧ s.toCy = q ∧ s.trWith km (flipCh s) = some st ∧ ps = []) := by
+theorem tr3_some (flipOf : S2.Query → Bool) (flipCh : Ch.Query → Bool) (prune : Bool) (km : KindMap) (q : Cy.Query) (st : Stmt) (ps : List (String × Val))
+    (h : tr3F flipOf flipCh prune km q = some (st, ps)) :
+    tr2F flipOf prune km q = some (st, ps) ∨ (∃ s : Ch.Query, ofCyChain q = some s ∧ s.toCy = q ∧ s.trWith km (flipCh s) = some st ∧ ps = []) := by
   unfold tr3F at h
-  cases h1 : tr2F flipOf km q with
+  cases h1 : tr2F flipOf prune km q with
   | some r => rw [h1] at h; cases h; exact Or.inl rfl
   | none =>
     rw [h1] at h
@@ -235,10 +235,10 @@ theorem tr_sound_S2c (km : KindMap) (g : Graph) (hok : GraphOK2 km g) (s : Ch.Qu
   · rw [hsql] at ht; cases ht
 
 /-- THE PROVED PART over all three stages, for every join-order choice -/
-theorem c01_partial_S3 (flipOf : S2.Query → Bool) (flipCh : Ch.Query → Bool) : C01_bag_for (tr3F flipOf flipCh) := by
+theorem c01_partial_S3 (flipOf : S2.Query → Bool) (flipCh : Ch.Query → Bool) (prune : Bool) : C01_bag_for (tr3F flipOf flipCh prune) := by
   intro km g q st ps hok h
-  rcases tr3_some flipOf flipCh km q st ps h with h2 | ⟨s, _, hq, hst, hps⟩
-  · exact c01_partial_S2 flipOf km g q st ps hok h2
+  rcases tr3_some flipOf flipCh prune km q st ps h with h2 | ⟨s, _, hq, hst, hps⟩
+  · exact c01_partial_S2 flipOf prune km g q st ps hok h2
   · subst hps hq
     obtain ⟨r, names, rows, hr, hsql, hperm⟩ := chain_sound km g hok s (flipCh s) st hst
     refine ⟨fun t ht => ?_, fun m hm => ?_⟩
@@ -254,11 +254,11 @@ theorem ofCyChain_sound (q : Cy.Query) (s : Ch.Query) (h : ofCyChain q = some s)
 /-! ### stage S1c: the count aggregate over one node pattern — `tr4F flipOf flipCh fast` = S1 ∪ S2b ∪ S2c ∪ S1c -/
 
 /-- `tr4F` answers only inside S1 ∪ S2b ∪ S2c ∪ S1c -/
-theorem tr4_some (flipOf : S2.Query → Bool) (flipCh : Ch.Query → Bool) (fast : Bool) (km : KindMap) (q : Cy.Query) (st : Stmt) (ps : List (String × Val))
-    (h : tr4F flipOf flipCh fast km q = some (st, ps)) :
-    tr3F flipOf flipCh km q = some (st, ps) ∨ (∃ s : S1c.Query, ofCyCount1 q = some s ∧ s.toCy = q ∧ s.trWith km fast = some st ∧ ps = []) := by
+theorem tr4_some (flipOf : S2.Query → Bool) (flipCh : Ch.Query → Bool) (fast prune : Bool) (km : KindMap) (q : Cy.Query) (st : Stmt) (ps : List (String × Val))
+    (h : tr4F flipOf flipCh fast prune km q = some (st, ps)) :
+    tr3F flipOf flipCh prune km q = some (st, ps) ∨ (∃ s : S1c.Query, ofCyCount1 q = some s ∧ s.toCy = q ∧ s.trWith km fast = some st ∧ ps = []) := by
   unfold tr4F at h
-  cases h1 : tr3F flipOf flipCh km q with
+  cases h1 : tr3F flipOf flipCh prune km q with
   | some r => rw [h1] at h; cases h; exact Or.inl rfl
   | none =>
     rw [h1] at h
@@ -283,11 +283,11 @@ theorem tr_sound_S1c (km : KindMap) (g : Graph) (hok : GraphOK km g) (s : S1c.Qu
   · rw [hsql] at ht; cases ht; exact ⟨r, hr, hrows⟩
   · rw [hsql] at ht; cases ht
 
-/-- THE PROVED PART over all four stages, for every join-order choice and with the fast path on or off -/
-theorem c01_partial_S4 (flipOf : S2.Query → Bool) (flipCh : Ch.Query → Bool) (fast : Bool) : C01_bag_for (tr4F flipOf flipCh fast) := by
+/-- THE PROVED PART over all four stages, for every join-order choice and with the fast path / projection pruning on or off -/
+theorem c01_partial_S4 (flipOf : S2.Query → Bool) (flipCh : Ch.Query → Bool) (fast prune : Bool) : C01_bag_for (tr4F flipOf flipCh fast prune) := by
   intro km g q st ps hok h
-  rcases tr4_some flipOf flipCh fast km q st ps h with h3 | ⟨s, _, hq, hst, hps⟩
-  · exact c01_partial_S3 flipOf flipCh km g q st ps hok h3
+  rcases tr4_some flipOf flipCh fast prune km q st ps h with h3 | ⟨s, _, hq, hst, hps⟩
+  · exact c01_partial_S3 flipOf flipCh prune km g q st ps hok h3
   · subst hps hq
     obtain ⟨r, names, rows, hr, hsql, hrows⟩ := count_sound km g hok.toGraphOK s fast st hst
     refine ⟨fun t ht => ?_, fun m hm => ?_⟩
